@@ -234,8 +234,17 @@ def r4_stack_trace(ctx, rule="C11.R4"):
                 continue
             n_other += 1
             at_front = nm in ("insert", "remove") and len(t["args"]) > 1 and (t["args"][1].get("k") or {}).get("int") == 0
+            if nm == "clear":
+                # no call site is listed exactly when no call is active: the list is emptied together
+                # with the return addresses (RESUME label leaves every active call)
+                for b2, t2 in f.body.calls():
+                    if t2["args"] and mir.callee_path(t2).split("::")[-1] == "clear":
+                        o2 = mir.strip_refs(fpv.of_operand(t2["args"][0]))
+                        if o2[0] == "field" and o2[2] == "return_address_stack" and \
+                                (f.body.dominates(b2, b) or f.body.dominates(b, b2)):
+                            at_front = True
             ctx.decide(at_front, rule, "%s:only-front-operations:%s:%s" % (rule, f.name, nm), "%s:%s" % (f.file, t.get("ln")),
-                       "%s at index 0" % nm,
+                       "%s at index 0" % nm if nm != "clear" else "emptied together with the return addresses",
                        "%s applies `%s` to the list of active call sites: the list reported with an error no longer "
                        "consists of exactly the calls that are active, innermost first, ending in the main module"
                        % (f.name, nm))
